@@ -51,6 +51,14 @@ func (a argT) val() any {
 		return a.I != 0
 	case "n":
 		return nil
+	case "f32":
+		return float32(a.F)
+	case "u":
+		return uint(a.I)
+	case "i8":
+		return int8(a.I)
+	case "u64":
+		return uint64(a.I)
 	case "e":
 		return errors.New(a.S)
 	case "is":
@@ -185,6 +193,15 @@ func genFmt(r *hx.Rand) *fmtCase {
 		if r.Chance(1, 8) {
 			k.Args[0] = genArg(r)
 		}
+	case 3: // ONE bare directive other than %s with ONE scalar operand of any kind (fitting the verb or not): the
+		// shape a "fast path for more verbs" would serve — %d with a float or a bool, %v with each scalar, …
+		plain := []string{"", "a", "100", " items", "n=", "\n", "{}", "é"}
+		b.WriteString(hx.Pick(r, plain) + hx.Pick(r, []string{"%d", "%d", "%v", "%v", "%t", "%x", "%g", "%f", "%q", "%c", "%e", "%o", "%b", "%U", "%T"}) + hx.Pick(r, plain))
+		k.Args = []argT{hx.Pick(r, []argT{{K: "i", I: int64(r.Range(-1000, 100000))}, {K: "f", F: float64(r.Range(-1000, 1000)) / 8},
+			{K: "f", F: float64(r.Range(-5, 5))}, {K: "b", I: int64(r.Intn(2))}, {K: "n"},
+			{K: "f32", F: float64(r.Range(-40, 40)) / 8}, {K: "f32", F: 0.1}, {K: "u", I: int64(r.Range(0, 70000))}, {K: "i8", I: int64(r.Range(-128, 127))},
+			{K: "u64", I: int64(r.Range(0, 1<<40))}, {K: "is", I: 7}, {K: "st", I: 4},
+			{K: "s", S: hex.EncodeToString([]byte(hx.Pick(r, fmtStrings)))}})}
 	default:
 		n := r.Range(0, 5)
 		matched := r.Chance(2, 3) // operands chosen to fit the verbs (no %!verb(type=…) markers)
